@@ -142,6 +142,20 @@ func c19GenValue(c *Ctx) (*VDesc, cty.Value) {
 			in.Names = append(in.Names, pr[1])
 			in.Elems = append(in.Elems, leaf)
 		}
+		if c.G(2) == 0 {
+			// ... or attribute names that spell out, in one notation or another, the path of a member next to them
+			outer = &TDesc{K: KObject}
+			inner := []*TDesc{{K: KObject, Names: []string{"b", "c"}, Elems: []*TDesc{leaf, leaf}}, {K: KList, Elem: leaf}, {K: KMap, Elem: leaf}, {K: KTuple, Elems: []*TDesc{leaf, leaf}}}[c.G(4)]
+			outer.Names = append(outer.Names, "a")
+			outer.Elems = append(outer.Elems, inner)
+			for _, spelled := range []string{"a.b", `a["b"]`, "a[0]", "a/b", "a.0", "a[b]", ".a.b", "a.#", "a[1]", `a["k"]`, "a.c"} {
+				if c.G(2) == 0 {
+					outer.Names = append(outer.Names, spelled)
+					outer.Elems = append(outer.Elems, leaf)
+				}
+			}
+			c.Probe("c19.spelled-paths")
+		}
 		t = outer
 		switch c.G(4) {
 		case 0:
@@ -306,7 +320,24 @@ func simC19Walk(c *Ctx) {
 		ri := c.F(len(nodes))
 		n := nodes[ri]
 		o := GenOpts{Marks: !n.underSet && !n.inSet, Unknown: true, Null: true, Refine: true, MaxLen: 2}
-		repl := genValue(c, n.d.T, 2, o)
+		replT := n.d.T
+		structural := true // every enclosing value is a tuple or an object (a collection's members must keep one type)
+		for a := n.parent; a >= 0; a = nodes[a].parent {
+			if k := nodes[a].d.T.K; k != KTuple && k != KObject {
+				structural = false
+			}
+		}
+		if mode == 8 && structural && c.G(2) == 0 {
+			// where the surrounding type allows it (the root, a tuple element, an object attribute), the replacement
+			// has another type altogether - a leaf becomes a structure, a structure a leaf: what is traversed is
+			// what Enter returned
+			replT = genType(c, 2, GenOpts{})
+			if replT.K <= KBool {
+				replT = genType(c, 2, GenOpts{})
+			}
+			c.Probe("c19.replace-on-enter-other-type")
+		}
+		repl := genValue(c, replT, 2, o)
 		stripSetMarks(repl)
 		if n.underSet || n.inSet {
 			repl.stripMarksDeep()
@@ -339,9 +370,36 @@ func simC19Walk(c *Ctx) {
 			res, terr = cty.Transform(root, cb)
 			c.API("Transform")
 		} else if mode == 8 {
-			res, terr = cty.TransformWithTransformer(root, &c19Transformer{enter: cb})
+			left := map[string]int{}
+			res, terr = cty.TransformWithTransformer(root, &c19Transformer{enter: cb, exit: func(p cty.Path, v cty.Value) (cty.Value, error) {
+				left[renderPath(p)]++
+				return v, nil
+			}})
 			c.API("TransformWithTransformer")
 			c.Probe("c19.replace-on-enter")
+			// the traversal continues into what Enter returned: every member of the value with the replacement in
+			// place is left exactly once, and nothing else is
+			withRepl := cloneDesc(newRoot)
+			dedupeSets(withRepl, false)
+			var after []mnode
+			if !n.underSet && !n.inSet {
+				// (a member of a set is reported under a path step holding the member as it was)
+				enumerate(withRepl, "", nil, -1, false, false, &after)
+			} else {
+				left = map[string]int{}
+			}
+			want := map[string]bool{}
+			for _, an := range after {
+				want[an.key] = true
+				if left[an.key] != 1 {
+					c.Fail("C19", "transform-visit-count", "transform-visit-count:after-enter-replacement", "after Enter replaced the member at %q by %s, the member at %q of the result was left %d times by the traversal (want once)", n.key, repl, an.key, left[an.key])
+				}
+			}
+			for _, k := range sortedKeys(left) {
+				if !want[k] {
+					c.Fail("C19", "transform-foreign-path", "transform-foreign-path:after-enter-replacement", "after Enter replaced the member at %q by %s, the traversal reported the path %q, which names no member of the result", n.key, repl, k)
+				}
+			}
 		} else {
 			res, terr = cty.TransformWithTransformer(root, &c19Transformer{exit: cb})
 			c.API("TransformWithTransformer")
